@@ -5,8 +5,8 @@ from harness.lib import consumer_run
 
 MONITORS = {
     "C02": ["c02-increasing", "c02-no-overlap", "c02-single-fetch", "c02-faithful", "c02-prompt"],
-    "C03": ["c03-commit-le-processed", "c03-one-in-flight", "c03-committed-acked", "c03-resume", "c03-failure-stops", "c03-commit-reports"],
-    "C13": ["c13-start-once", "c13-fires-once", "c13-quiescent", "c13-shutdown", "c13-shutdown-inproc", "c13-no-crash", "c02-prompt", "c03-commit-reports"],
+    "C03": ["c03-commit-le-processed", "c03-one-in-flight", "c03-committed-acked", "c03-resume", "c03-failure-stops", "c03-commit-reports", "c03-ack-recorded", "c03-resume-asks"],
+    "C13": ["c13-start-once", "c13-fires-once", "c13-quiescent", "c13-shutdown", "c13-shutdown-inproc", "c13-no-crash", "c13-commit-bounded", "c02-prompt", "c03-commit-reports"],
     "C14": ["c14-delays", "c14-reset", "c14-growth", "c14-never-skips", "c14-attempts"],
 }
 ALL_MONITORS = [m for p in sorted(MONITORS) for m in MONITORS[p]]
@@ -28,8 +28,20 @@ def cfg_line(cfg):
     )
 
 
+def model_res(res):
+    """How the processor call ends, as the model knows it: a fired Deferred is a plain result (`ok` / `err`), a Deferred
+    that fired but whose chain is paused on a pending one is a pending result (`defer`)."""
+    if res == "fired":
+        return "ok"
+    if res == "paused":
+        return "defer"
+    if res.startswith("failed:"):
+        return "err:" + res[len("failed:"):]
+    return res
+
+
 def script_line(script):
-    return "script " + " ".join("%s/%s" % (",".join(e["acts"]) or "-", e["res"]) for e in script) if script else "script"
+    return "script " + " ".join("%s/%s" % (",".join(e["acts"]) or "-", model_res(e["res"])) for e in script) if script else "script"
 
 
 def model_event(ev):
